@@ -8,3 +8,4 @@ def run_for_property(prop, rep, seed):
         rep.note('mutant battery not available in this revision')
         return
     battery_impl.run_for_property(prop, rep, seed)
+    battery_impl.run_seeds_for_property(prop, rep)
